@@ -62,3 +62,5 @@ e('occ-start-min', WD, [('            start: self.match_start,\n            end:
 # after a not-a-number token no number is in progress, so `previous` is never consulted before it is overwritten
 e('nan-path-keeps-previous', WD, [('            self.outside_number(&token);\n            self.previous.replace(token);\n            return;', '            self.outside_number(&token);\n            return;', 1)])
 e('fr-annotate-truncate-noop', FR, [('        let mut b = DigitString::new();\n        let mut true_words: Vec<usize> = Vec::with_capacity(tokens.len());', '        let mut b = DigitString::new();\n        tokens.truncate(usize::MAX);\n        let mut true_words: Vec<usize> = Vec::with_capacity(tokens.len());', 1)])
+# an arm after the macro expansion that can never be reached (flagged by the former shape rule C-DELEGATION)
+e('facade-unreachable-arm', LM, [('                    Language::$variant(l) => l.apply(num_func, b),\n                )*', '                    Language::$variant(l) => l.apply(num_func, b),\n                )*\n                #[allow(unreachable_patterns)]\n                Language::Dutch(_) => German::default().apply(num_func, b),', 1)])
